@@ -34,6 +34,24 @@ pub fn stub_capability_from_str(s: &str) -> Result<Capability, ReadError> {
     }
 }
 
+/// Summary of `<Capabilities as ReadXml>::read_xml` for the session-id harness: consumes the
+/// `<capabilities>` element (precondition asserted on the reader's own state, see
+/// `rpc::error::verif_error::stub_read_xml`) and returns the set {:base:1.0}.  The real reader is
+/// the subject of `c12_capabilities_reader`.
+pub fn stub_capabilities_read_xml(reader: &mut NsReader<&[u8]>, start: &BytesStart<'_>) -> Result<Capabilities, ReadError> {
+    let last = reader.model_last_cell();
+    let on_caps = last.kind == tape::kind::START && last.name == 2 && last.ns == B;
+    assert!(on_caps, "Capabilities::read_xml called on an element that is not <capabilities>");
+    if !on_caps {
+        return Err(ReadError::NoMessageId);
+    }
+    let _ = reader.read_to_end(start.to_end().name())?;
+    const N: Option<Capability> = None;
+    Ok(crate::capabilities::verif_caps::capabilities_from_slots([
+        Some(Capability::Base(Base::V1_0)), N, N, N, N, N, N, N, N, N, N, N, N, N,
+    ]))
+}
+
 /// C12: the real `Capability::from_str` on every standard capability URI, on the Junos one, on
 /// an unknown URI and on a string that is not a URI (all concrete).
 #[kani::proof]
@@ -72,52 +90,64 @@ fn c12_capability_from_str() {
     kani::cover!(true, "reached");
 }
 
-/// C12: `ServerHello::read_xml` over every hello built from: capabilities element present /
-/// absent with the :base:1.0 and :base:1.1 capabilities each present / absent; session-id
-/// absent, present once or twice, with text from {1, 4294967295, 0, 4294967296, -1, x}.
-/// Accepted iff well-formed with exactly... a valid non-zero 32-bit id; reported id and base
-/// capabilities are those of the hello.
-#[kani::proof]
-#[kani::unwind(8)]
-#[kani::stub(<crate::capabilities::Capability as std::str::FromStr>::from_str, stub_capability_from_str)]
-fn c12_server_hello_reader() {
+/// C12: `ServerHello::read_xml` over hellos built from: capabilities element present / absent
+/// with the :base:1.0 and :base:1.1 capabilities each present / absent; session-id absent,
+/// present once or twice, before or after the capabilities, with text from
+/// {1, 4294967295, 0, 4294967296, -1, x}.  Accepted iff well-formed with exactly one valid
+/// non-zero 32-bit id; reported id and base capabilities are those of the hello.
+/// The two halves of the parameter space are explored by separate harnesses (each half alone
+/// fits into memory; the product does not): the session-id dimension with a fixed capability
+/// list, and the capability dimension with a fixed valid session-id.
+/// One child of `<hello>` in a fixed window of 8 tape positions (kind 0 = nothing, 1 =
+/// `<session-id>`, 2 = `<capabilities>` holding the base capabilities chosen by b10/b11, the
+/// present ones first, each in a 3-position sub-window).
+fn child_window(kind: u8, sid_text: u8, b10: bool, b11: bool) -> [Cell; 8] {
+    const X: Cell = Cell::NONE;
+    let cap = |text: u8| -> [Cell; 3] { [Cell::start(B, 3), Cell::text(text), Cell::end(B, 3)] };
+    let nop3: [Cell; 3] = [Cell::nop(3), X, X];
+    match kind {
+        0 => [Cell::nop(8), X, X, X, X, X, X, X],
+        1 => [Cell::start(B, 4), Cell::text(sid_text), Cell::end(B, 4).with_skip(5), X, X, X, X, X],
+        _ => {
+            let (s1, s2) = match (b10, b11) {
+                (true, true) => (cap(1), cap(2)),
+                (true, false) => (cap(1), nop3),
+                (false, true) => (cap(2), nop3),
+                (false, false) => (nop3, nop3),
+            };
+            [Cell::start(B, 2), s1[0], s1[1], s1[2], s2[0], s2[1], s2[2], Cell::end(B, 2)]
+        }
+    }
+}
+
+/// `<hello>` with the children `k1`, `k2` (concrete kinds: 1 = session-id, 2 = capabilities)
+/// and, if `third` holds, a further `<session-id>`; the session-id text is `sid_text`
+/// everywhere.  All windows sit at constant positions and only the *presence* of the third
+/// child and the text are symbolic.
+fn hello_body(k1: u8, k2: u8, third: bool, sid_text: u8) -> bool {
     tape::set_tables(&NAMES, &TEXTS, &ATTRS);
-    let caps_present: bool = kani::any();
-    let b10: bool = kani::any();
-    let b11: bool = kani::any();
-    let sid_count: u8 = kani::any();
-    kani::assume(sid_count <= 2);
-    let sid_text: u8 = kani::any();
-    kani::assume(sid_text >= 3 && sid_text <= 8);
-    let sid_first: bool = kani::any();
+    let b10 = true;
+    let b11 = false;
+    let caps_present = k1 == 2 || k2 == 2;
+    let sid_count: u8 = (k1 == 1) as u8 + (k2 == 1) as u8 + third as u8;
+    let w1 = child_window(k1, sid_text, b10, b11);
+    let w2 = child_window(k2, sid_text, b10, b11);
+    let w3 = if third { child_window(1, sid_text, b10, b11) } else { child_window(0, sid_text, b10, b11) };
     let mut t = Tape::EMPTY;
-    let push_sid = |t: &mut Tape| {
-        t.push(Cell::start(B, 4));
-        t.push(Cell::text(sid_text));
-        t.push(Cell::end(B, 4));
-    };
-    if sid_first && sid_count >= 1 {
-        push_sid(&mut t);
+    let mut j = 0;
+    while j < 8 {
+        t.push(w1[j]);
+        j += 1;
     }
-    if caps_present {
-        t.push(Cell::start(B, 2));
-        if b10 {
-            t.push(Cell::start(B, 3));
-            t.push(Cell::text(1));
-            t.push(Cell::end(B, 3));
-        }
-        if b11 {
-            t.push(Cell::start(B, 3));
-            t.push(Cell::text(2));
-            t.push(Cell::end(B, 3));
-        }
-        t.push(Cell::end(B, 2));
+    j = 0;
+    while j < 8 {
+        t.push(w2[j]);
+        j += 1;
     }
-    if !sid_first && sid_count >= 1 {
-        push_sid(&mut t);
-    }
-    if sid_count == 2 {
-        push_sid(&mut t);
+    j = 0;
+    while j < 8 {
+        t.push(w3[j]);
+        j += 1;
     }
     t.push(Cell::end(B, 1));
     tape::register(0, t);
@@ -141,8 +171,189 @@ fn c12_server_hello_reader() {
             assert!(!(caps_present && sid_count == 1 && valid_id), "C12 hello: a well-formed hello with a valid session-id was rejected");
         }
     }
-    kani::cover!(res.is_ok() && b10 && b11, "hello with both base versions accepted");
-    kani::cover!(res.is_err() && sid_text == 5, "session-id 0 rejected");
-    kani::cover!(res.is_err() && sid_count == 2, "duplicated session-id rejected");
+    kani::cover!(res.is_err(), "a hello is rejected");
+    let accepted = res.is_ok();
     std::mem::forget(res);
+    accepted
+}
+
+fn any_sid_text() -> u8 {
+    let sid_text: u8 = kani::any();
+    kani::assume(sid_text >= 3 && sid_text <= 8);
+    sid_text
+}
+
+/// `<capabilities>` (summarised reader), then one or two `<session-id>` with any of the 6 texts.
+#[kani::proof]
+#[kani::unwind(10)]
+#[kani::stub(<crate::capabilities::Capabilities as crate::message::ReadXml>::read_xml, stub_capabilities_read_xml)]
+fn c12_server_hello_session_id_after_capabilities() {
+    let accepted = hello_body(2, 1, kani::any(), any_sid_text());
+    kani::cover!(accepted, "a hello is accepted");
+}
+
+/// `<session-id>` first, then `<capabilities>`, then possibly a second `<session-id>`.
+#[kani::proof]
+#[kani::unwind(10)]
+#[kani::stub(<crate::capabilities::Capabilities as crate::message::ReadXml>::read_xml, stub_capabilities_read_xml)]
+fn c12_server_hello_session_id_before_capabilities() {
+    let accepted = hello_body(1, 2, kani::any(), any_sid_text());
+    kani::cover!(accepted, "a hello is accepted");
+}
+
+/// A hello lacking `<session-id>` or `<capabilities>` (or both) is rejected.
+#[kani::proof]
+#[kani::unwind(10)]
+#[kani::stub(<crate::capabilities::Capabilities as crate::message::ReadXml>::read_xml, stub_capabilities_read_xml)]
+fn c12_server_hello_missing_parts() {
+    let which: u8 = kani::any();
+    kani::assume(which < 3);
+    match which {
+        0 => hello_body(2, 0, false, 3),
+        1 => hello_body(1, 0, false, 3),
+        _ => hello_body(0, 0, false, 3),
+    };
+}
+
+/// The real `Capabilities::read_xml` (with `Capability::from_str` summarised) on
+/// `<capabilities>` holding any subset of {:base:1.0, :base:1.1}: the set read is the set sent.
+#[kani::proof]
+#[kani::unwind(10)]
+#[kani::stub(<crate::capabilities::Capability as std::str::FromStr>::from_str, stub_capability_from_str)]
+fn c12_capabilities_reader() {
+    tape::set_tables(&NAMES, &TEXTS, &ATTRS);
+    let b10: bool = kani::any();
+    let b11: bool = kani::any();
+    let w = child_window(2, 3, b10, b11);
+    let mut t = Tape::EMPTY;
+    let mut j = 1;
+    while j < 8 {
+        t.push(w[j]);
+        j += 1;
+    }
+    tape::register(0, t);
+    let mut reader = NsReader::from_str(tape::input_for(0));
+    let _ = reader.trim_text(true);
+    let start = BytesStart::from_id(2);
+    let res = Capabilities::read_xml(&mut reader, &start);
+    match &res {
+        Ok(caps) => {
+            let has10 = caps.iter().any(|c| matches!(c, Capability::Base(Base::V1_0)));
+            let has11 = caps.iter().any(|c| matches!(c, Capability::Base(Base::V1_1)));
+            assert!(has10 == b10 && has11 == b11, "C12 hello: capabilities read differ from the hello's");
+            assert!(caps.iter().count() == b10 as usize + b11 as usize, "C12 hello: a capability was invented or duplicated");
+        }
+        Err(_) => assert!(false, "C12 hello: a well-formed <capabilities> was rejected"),
+    }
+    kani::cover!(b10 && b11 && res.is_ok(), "both base versions read");
+    std::mem::forget(res);
+}
+
+/// C12, element sequences enumerated, leaf values symbolic (see `for_each_sequence` in
+/// message/rpc/verif_replies): every `<hello>` whose children are a sequence of length <= 3
+/// over {<session-id>, <capabilities>} with at most one `<capabilities>` - 11 layouts walked by
+/// a concrete loop -, the session-id text symbolic over {1, 4294967295, 0, 4294967296, -1, x},
+/// `<capabilities>` holding :base:1.0 (`Capabilities::read_xml` summarised; the real one is
+/// `c12_capabilities_reader`'s subject).  Accepted iff exactly one valid session-id and a capabilities element.
+const LAYOUTS: [[u8; 3]; 12] = [
+    [0, 0, 0],
+    [1, 0, 0],
+    [2, 0, 0],
+    [1, 1, 0],
+    [1, 2, 0],
+    [2, 1, 0],
+    [1, 1, 2],
+    [1, 2, 1],
+    [2, 1, 1],
+    [1, 1, 1],
+    [2, 2, 0],
+    [2, 2, 1],
+];
+
+/// Layouts `FROM .. FROM + 3` (the 12 layouts are spread over four harnesses: the formula of
+/// all of them together does not fit into 30 GB - a `ServerHello` value carries the 14 slots of
+/// the model's capability set through every move).
+fn hello_layouts<const FROM: usize>() {
+    let mut accepted_some = false;
+    let mut i = FROM;
+    while i < FROM + 3 {
+        accepted_some |= hello_layout(LAYOUTS[i], any_sid_text());
+        i += 1;
+    }
+    kani::cover!(accepted_some || FROM != 3, "a hello of this group is accepted");
+}
+
+macro_rules! hello_sequence_harnesses {
+    ($( $name:ident => $from:literal ),* $(,)?) => {
+        $(
+            #[kani::proof]
+            #[kani::unwind(12)]
+            #[kani::stub(<crate::capabilities::Capabilities as crate::message::ReadXml>::read_xml, stub_capabilities_read_xml)]
+            fn $name() {
+                hello_layouts::<$from>()
+            }
+        )*
+    };
+}
+
+hello_sequence_harnesses!(
+    c12_server_hello_sequences_a => 0,
+    c12_server_hello_sequences_b => 3,
+    c12_server_hello_sequences_c => 6,
+    c12_server_hello_sequences_d => 9,
+);
+
+/// One concrete layout (`kinds[i]`: 0 nothing, 1 session-id, 2 capabilities; nothing only at
+/// the end), symbolic session-id text.
+fn hello_layout(kinds: [u8; 3], sid_text: u8) -> bool {
+    tape::set_tables(&NAMES, &TEXTS, &ATTRS);
+    let mut t = Tape::EMPTY;
+    let mut caps_present = false;
+    let mut sid_count = 0u8;
+    let mut i = 0;
+    while i < 3 {
+        match kinds[i] {
+            1 => {
+                t.push(Cell::start(B, 4));
+                t.push(Cell::text(sid_text));
+                t.push(Cell::end(B, 4));
+                sid_count += 1;
+            }
+            2 => {
+                t.push(Cell::start(B, 2));
+                t.push(Cell::start(B, 3));
+                t.push(Cell::text(1));
+                t.push(Cell::end(B, 3));
+                t.push(Cell::end(B, 2));
+                caps_present = true;
+            }
+            _ => {}
+        }
+        i += 1;
+    }
+    t.push(Cell::end(B, 1));
+    tape::register(0, t);
+    let mut reader = NsReader::from_str(tape::input_for(0));
+    let _ = reader.trim_text(true);
+    let start = BytesStart::from_id(1);
+    let res = ServerHello::read_xml(&mut reader, &start);
+    let valid_id = sid_text == 3 || sid_text == 4;
+    match &res {
+        Ok(h) => {
+            assert!(caps_present, "C12 hello: accepted without <capabilities>");
+            assert!(sid_count == 1, "C12 hello: accepted with a missing or duplicated <session-id>");
+            assert!(valid_id, "C12 hello: accepted with an invalid session-id (zero, out of range, negative or not a number)");
+            let want: u32 = if sid_text == 3 { 1 } else { 4294967295 };
+            assert!(h.session_id() == SessionId::new(want).unwrap(), "C12 hello: reported session-id differs from the hello's");
+            let has10 = h.capabilities.iter().any(|c| matches!(c, Capability::Base(Base::V1_0)));
+            let n = h.capabilities.iter().count();
+            assert!(has10 && n == 1, "C12 hello: reported capabilities differ from the hello's");
+        }
+        Err(_) => {
+            assert!(!(caps_present && sid_count == 1 && valid_id), "C12 hello: a well-formed hello with a valid session-id was rejected");
+        }
+    }
+    let ok = res.is_ok();
+    std::mem::forget(res);
+    ok
 }
